@@ -78,6 +78,7 @@ class Sim:
         del self.w.wire.log[:]
         self.w.wire.intercept = self._intercept
         self.fault = {n: 'ok' for n in SUBSCRIBERS}
+        self.mid_hook = None
         self.subs = {}      # name -> ConsumerSubscription (real consumer-side class builds the requests)
         self.model = {}     # name -> dict
         self.stopped = False
@@ -90,6 +91,9 @@ class Sim:
         from sdc11073.pysoap.soapclient import HTTPReturnCodeError
         for name, cfg in SUBSCRIBERS.items():
             if client.netloc == f'{cfg["ip"]}:{cfg["port"]}':
+                if self.mid_hook is not None and b'SubscriptionEnd' not in data:
+                    hook, self.mid_hook = self.mid_hook, None
+                    hook(name, msg.idx)
                 mode = self.fault[name]
                 if mode == 'http500':
                     return ('raise', HTTPReturnCodeError(500, 'Internal Server Error', None))
@@ -262,6 +266,63 @@ class Sim:
             for n in expected:
                 if self.fault[n] != 'ok':
                     self.model[n]['failures'] += 1
+        elif kind == 'report-mid':
+            # while the report is being delivered to the first subscriber, another subscriber unsubscribes (in a second
+            # real thread: if the manager holds a lock during delivery the request simply waits) or its subscription
+            # expires: "alive at send time" must be decided when its own notification is sent
+            _, what, action = ev
+            action_name = 'EpisodicMetricReport' if what == 'metric' else 'EpisodicAlertReport'
+            live = sorted(n for n in SUBSCRIBERS if self._live(n) and action_name in SUBSCRIBERS[n]['filter'])
+            if len(live) < 2 or any(self.fault[n] != 'ok' for n in live):
+                return 'disabled', []
+            if action == 'unsub-other' and 'async' in self.mgr_name:
+                return 'disabled', []    # the async managers hand a report to all subscribers at once (one gather)
+            st = {'first': None, 'victim': None, 'answered_at': None, 'blocked': False, 'thread': None, 'error': None}
+
+            def hook(first, wire_idx):
+                st['first'] = first
+                victim = [n for n in live if n != first][0]
+                st['victim'] = victim
+                if action == 'expire-other':
+                    world.ENV.now += max(self._remaining(n) for n in live) + 1.0
+                    st['answered_at'] = len(self.w.wire.log)
+                    return
+
+                def do():
+                    try:
+                        self.subs[victim].unsubscribe()
+                        st['answered_at'] = len(self.w.wire.log)
+                    except Exception as ex:  # noqa: BLE001
+                        st['error'] = repr(ex)
+                import threading as _t
+                th = _t.Thread(target=do, daemon=True)
+                st['thread'] = th
+                th.start()
+                th.join(1.0)
+                st['blocked'] = th.is_alive()
+            self.mid_hook = hook
+            try:
+                A.apply(self.p, 'metric(N1,1)' if what == 'metric' else 'alert-cond(on)')
+            except Exception as ex:  # noqa: BLE001
+                problems.append(f'report transaction raised {ex!r}')
+            self.mid_hook = None
+            if st['thread'] is not None:
+                st['thread'].join(10.0)
+            if st['error']:
+                problems.append(f'Unsubscribe during delivery raised {st["error"]}')
+            victim = st['victim']
+            if victim is not None:
+                if action == 'expire-other':
+                    for n in live:
+                        self.model[n]['expires'] = -1.0          # all expired by the jump of the clock
+                else:
+                    self.model[victim]['unsubscribed'] = True
+                if st['answered_at'] is not None and not st['blocked']:
+                    late = [m for m in self.w.wire.log[st['answered_at']:]
+                            if m.netloc == f'{SUBSCRIBERS[victim]["ip"]}:{SUBSCRIBERS[victim]["port"]}' and b'SubscriptionEnd' not in m.data]
+                    if late:
+                        why = 'its Unsubscribe was answered' if action == 'unsub-other' else 'its subscription expired'
+                        problems.append(f'{what} report delivered to {victim} after {why} (during the delivery to {st["first"]})')
         elif kind == 'tick':
             world.ENV.now += ev[1]
         elif kind == 'housekeeping':
@@ -328,8 +389,9 @@ def events(quick):
         for e in ((None, 5, 99) if quick else (None, 5, 11, 99)):
             evs.append(('sub', n, e))
         evs += [('renew', n, 5), ('renew', n, 99), ('status', n, None), ('unsub', n, None)]
-        for mode in (('ok', 'http500', 'refused') if quick else ('ok', 'http500', 'refused', 'timeout', 'notconnected')):
+        for mode in (('ok', 'http500', 'refused', 'timeout') if quick else ('ok', 'http500', 'refused', 'timeout', 'notconnected')):
             evs.append(('fault', n, mode))
+    evs += [('report-mid', 'metric', 'unsub-other'), ('report-mid', 'metric', 'expire-other')]
     evs += [('unknown', 'renew'), ('unknown', 'status'), ('unknown', 'unsub'), ('report', 'metric'), ('report', 'alert'),
             ('tick', 2), ('tick', 4), ('housekeeping',), ('stop', True), ('stop', False)]
     return evs
